@@ -254,6 +254,8 @@ def run(tier):
             # the same unsupported request in a session that has just served a valid, larger request of the same method
             execute(dict(base(), method=req["method"], via=req["via"], rows=21, cols=21 if (req["via"] or req["method"] in ("linbasex", "rbasex")) else 15))
             primed = execute(req)
+            if primed == "raise":
+                primed = execute(req)         # … and once more: the refusal must not have left the request half-accepted
             if primed != "raise" and got == "raise":
                 ck.violation(dict(site="Transform" if req["via"] else req["method"], method=req["method"], clause="accepted-after-valid-request"),
                              {k: (list(v) if isinstance(v, tuple) else v) for k, v in req.items()},
@@ -311,6 +313,30 @@ def run(tier):
     except Exception:
         pass
     ck.count("rbasex-pos-forward", suite="S.extra")
+    # an unknown crop option is refused whatever the origin and the interpolation order (also when nothing would have to move)
+    from abel.tools import center as _center
+    im9 = gauss_full(9, 11)
+    for crop in ("bogus", "valid", "", None):
+        for order in (0, 1, 3):
+            for origin in ((4, 5), (4.0, 5.0), (3, 4), (4.5, 5.25)):
+                ck.count(("crop", str(crop), order, str(origin)), suite="S.extra")
+                try:
+                    with contextlib.redirect_stdout(io.StringIO()):
+                        _center.set_center(im9, origin, crop=crop, order=order)
+                    ck.violation(dict(site="set_center", clause="unknown-crop"), dict(crop=str(crop), order=order, origin=list(origin)),
+                                 f"set_center(crop={crop!r}, order={order}, origin={origin}) returned instead of raising")
+                except Exception:
+                    pass
+            try:
+                with contextlib.redirect_stdout(io.StringIO()), warnings.catch_warnings():
+                    warnings.simplefilter("ignore")
+                    _center.center_image(im9, "image_center", crop=crop, order=order)
+                    abel.Transform(im9, method="two_point", origin="image_center", center_options=dict(crop=crop, order=order),
+                                   transform_options=dict(basis_dir=None))
+                ck.violation(dict(site="center_image", clause="unknown-crop"), dict(crop=str(crop), order=order, origin="image_center"),
+                             f"center_image / Transform(center_options=dict(crop={crop!r}, order={order})) returned instead of raising")
+            except Exception:
+                pass
     ck.cov["exhaustive"] = True
     ck.cov["explanation"] = ("the request-class table is finite and enumerated completely (section A-C); section D adds "
                              "seeded random interactions")
